@@ -100,8 +100,16 @@ def check(spec, point, prefix):
         is_dict = "Dict" in spec["class"]
         old = OLD if is_dict else [OLD, 0]
         new = NEW if is_dict else [NEW, 1]
-        with open(path, "w") as f:
-            json.dump(old, f)
+        if spec.get("symlink"):
+            # the bound file name is a symbolic link to the real file (in another directory)
+            os.makedirs(os.path.join(tmp, "real"))
+            real = os.path.join(tmp, "real", "r.json")
+            with open(real, "w") as f:
+                json.dump(old, f)
+            os.symlink(real, path)
+        else:
+            with open(path, "w") as f:
+                json.dump(old, f)
         r = subprocess.run([sys.executable, os.path.abspath(__file__), "child", spec["class"], path,
                             "1" if spec["write_concern"] else "0", "1" if spec["threads"] else "0", str(point), str(prefix)],
                            capture_output=True, text=True, timeout=120, env=os.environ)
@@ -133,9 +141,9 @@ def check(spec, point, prefix):
 
 def search(spec):
     points = 0
-    for wc in (True, False):
-        for threads in (True, False):
-            sp = dict(spec, write_concern=wc, threads=threads)
+    for (wc, threads, link) in [(w, t, l) for l in (False, True) for w in (True, False) for t in (True, False)]:
+        if True:
+            sp = dict(spec, write_concern=wc, threads=threads, symlink=link)
             if not (wc or threads):
                 continue
             for point in range(1, 40):
